@@ -1,9 +1,776 @@
-//! Census family (stub)
-use crate::{Case, Entry};
-use vx::Ctx;
+//! Census family: entry points added from the unwrap/expect/unreachable!/panic! census of the anchored crates
+//! (argument tables, resolver-driven SD-JWT VC calls, key storage with hostile JWKs), and the hostile-size
+//! family, which runs in a child process (re-exec of this binary with a hidden argument, RLIMIT_AS +
+//! RLIMIT_CPU) so that an abort / stack overflow / non-termination is reported with its input and never kills
+//! the run.
+
+use crate::strings::{sw, Sweep, A_DID};
+use crate::{bb, es, st, Case, Entry, In, Local, Out};
+use async_trait::async_trait;
+use identity_core::common::{StringOrUrl, Timestamp, Url};
+use identity_core::convert::{FromJson, ToJson};
+use identity_credential::credential::{RevocationBitmapStatus, Status};
+use identity_credential::sd_jwt_vc::{Resolver, SdJwtVc};
+use identity_did::DIDUrl;
+use identity_document::document::CoreDocument;
+use identity_jose::jwk::Jwk;
+use identity_jose::jws::JwsAlgorithm;
+use identity_storage::{JwkDocumentExt, JwkMemStore, JwkStorage, JwsSignatureOptions, KeyIdMemstore, KeyType, Storage};
+use identity_verification::MethodScope;
+use std::io::Write;
+use std::process::{Command, Stdio};
+use std::time::{Duration, Instant};
+use vx::rayon::prelude::*;
+use vx::{json, Ctx};
+
 pub const HOSTILE_PREFIX: &str = "hostile/";
 pub const CHILD_ARG: &str = "--c05-child";
-pub fn entries() -> Vec<Entry> { vec![] }
-pub fn eval_hostile(_ctx: &Ctx, _case: &Case) {}
-pub fn child_main(_args: &[String]) -> ! { std::process::exit(0) }
-pub fn generate(_ctx: &Ctx) {}
+
+// ------------------------------------------------------------------------------------------------ resolvers
+#[derive(Clone, Copy)]
+enum Mode {
+  NotFound,
+  Garbage,
+  Fixed,
+  Generic,
+  WrongType,
+}
+struct R(Mode);
+fn fixed_answer(input: &str) -> Vec<u8> {
+  if input.contains("jwt-vc-issuer") {
+    format!(r#"{{"issuer":"https://example.com/issuer","jwks":{{"keys":[{}]}}}}"#, {
+      let mut k = crate::tokens::ISSUER_KEY.public_with_alg("EdDSA");
+      k.set_kid("k");
+      k.to_json().unwrap()
+    })
+    .into_bytes()
+  } else if input.contains("schema") {
+    br#"{"type":"object"}"#.to_vec()
+  } else if input.contains("vct") || input.contains("credential") {
+    crate::json::SEED_TYPE_METADATA.as_bytes().to_vec()
+  } else {
+    crate::tokens::ISSUER_KEY.public_with_alg("EdDSA").to_json().unwrap().into_bytes()
+  }
+}
+fn answer(mode: Mode, input: &str) -> Result<Vec<u8>, identity_credential::sd_jwt_vc::resolver::Error> {
+  use identity_credential::sd_jwt_vc::resolver::Error as E;
+  match mode {
+    Mode::NotFound => Err(E::NotFound(input.to_string())),
+    Mode::Generic => Err(E::Generic(anyhow::anyhow!("boom"))),
+    Mode::Garbage => Ok(b"\xff{not json".to_vec()),
+    Mode::WrongType => Ok(b"[1,2,3]".to_vec()),
+    Mode::Fixed => Ok(fixed_answer(input)),
+  }
+}
+#[async_trait]
+impl Resolver<Url, Vec<u8>> for R {
+  async fn resolve(&self, input: &Url) -> Result<Vec<u8>, identity_credential::sd_jwt_vc::resolver::Error> {
+    answer(self.0, input.as_str())
+  }
+}
+#[async_trait]
+impl Resolver<StringOrUrl, Vec<u8>> for R {
+  async fn resolve(&self, input: &StringOrUrl) -> Result<Vec<u8>, identity_credential::sd_jwt_vc::resolver::Error> {
+    answer(self.0, input.as_ref())
+  }
+}
+#[async_trait]
+impl Resolver<Url, serde_json::Value> for R {
+  async fn resolve(&self, input: &Url) -> Result<serde_json::Value, identity_credential::sd_jwt_vc::resolver::Error> {
+    let b = answer(self.0, input.as_str())?;
+    serde_json::from_slice(&b).map_err(|e| identity_credential::sd_jwt_vc::resolver::Error::ParsingFailure(e.into()))
+  }
+}
+
+/// `issuer_metadata`, `issuer_jwk`, `type_metadata`, `validate` with a resolver that answers NotFound /
+/// garbage / a fixed well-formed document / a generic error / JSON of the wrong shape.
+pub fn sd_jwt_vc_with_resolvers(vc: &SdJwtVc) {
+  use futures::executor::block_on;
+  let h = identity_credential::sd_jwt_v2::Sha256Hasher::new();
+  for mode in [Mode::NotFound, Mode::Garbage, Mode::Fixed, Mode::Generic, Mode::WrongType] {
+    let r = R(mode);
+    st("SdJwtVc::issuer_metadata");
+    if let Ok(Some(m)) = block_on(vc.issuer_metadata(&r)) {
+      st("SdJwtVc::issuer_metadata>validate");
+      bb(m.validate(vc).is_ok());
+    }
+    st("SdJwtVc::issuer_jwk");
+    bb(block_on(vc.issuer_jwk(&r)).is_ok());
+    st("SdJwtVc::type_metadata");
+    if let Ok((t, raw)) = block_on(vc.type_metadata(&r)) {
+      st("SdJwtVc::type_metadata>validate_credential_with_resolver");
+      bb(raw.len());
+      bb(block_on(t.validate_credential_with_resolver(&json!({"vct": "x", "name": "n"}), &r)).is_ok());
+    }
+    st("SdJwtVc::validate");
+    bb(block_on(vc.validate(&r, &vx::fx::RealVerifier, &h)).is_ok());
+    bb(block_on(vc.validate(&r, &vx::fx::AlwaysOk, &h)).is_ok());
+  }
+}
+
+// ------------------------------------------------------------------------------------------------ entries
+fn e_sd_jwt_vc_parse(s: &str) -> Out {
+  // (registered by the strings module under the same name: this is the table-driven variant)
+  match SdJwtVc::parse(s) {
+    Err(_) => "rej",
+    Ok(vc) => {
+      crate::tokens::sd_jwt_vc_accessors(&vc);
+      "accepted"
+    }
+  }
+}
+
+fn e_revocation_bitmap_status_new(s: &str) -> Out {
+  let Ok(id) = DIDUrl::parse(s) else { return "rej:did-url" };
+  let mut n = 0;
+  for index in [0u32, 5, u32::MAX] {
+    st("new");
+    let r = RevocationBitmapStatus::new(id.clone(), index);
+    st("new>id/index");
+    bb((r.id().is_ok(), r.index().ok()));
+    st("new>Status::from>try_from");
+    let status: Status = r.into();
+    if RevocationBitmapStatus::try_from(status.clone()).is_ok() {
+      n += 1;
+    }
+    crate::json::status_accessors(&status);
+  }
+  if n == 3 {
+    "accepted"
+  } else {
+    "accepted:not-round-trippable"
+  }
+}
+
+fn e_timestamp_from_unix(s: &str) -> Out {
+  let Ok(n) = s.parse::<i64>() else { return "rej:descriptor" };
+  match Timestamp::from_unix(n) {
+    Err(_) => "rej",
+    Ok(t) => {
+      crate::strings::timestamp_accessors(&t);
+      "accepted"
+    }
+  }
+}
+
+/// input = a JWK (JSON). insert -> sign -> exists -> delete on a fresh in-memory store, plus `generate`.
+fn e_memstore(s: &str) -> Out {
+  use futures::executor::block_on;
+  let Ok(jwk) = Jwk::from_json(s) else { return "rej:jwk" };
+  let store = JwkMemStore::new();
+  st("insert");
+  match block_on(store.insert(jwk.clone())) {
+    Err(_) => "rej:insert",
+    Ok(id) => {
+      let mut signed = false;
+      for pk in [jwk.to_public(), Some(jwk.clone()), Some(crate::tokens::ISSUER_KEY.public_with_alg("EdDSA")), Some(crate::tokens::ISSUER_KEY.public.clone())].into_iter().flatten() {
+        st("sign");
+        signed |= block_on(store.sign(&id, b"message", &pk)).is_ok();
+      }
+      st("exists/delete");
+      bb((block_on(store.exists(&id)).is_ok(), block_on(store.delete(&id)).is_ok(), block_on(store.delete(&id)).is_ok(), block_on(store.count())));
+      if signed {
+        "accepted:signed"
+      } else {
+        "accepted:inserted-only"
+      }
+    }
+  }
+}
+
+/// input = `key_type|alg|fragment|scope-index`: generate_method + create_jws on a document with in-memory storage.
+fn e_generate_method(s: &str) -> Out {
+  use futures::executor::block_on;
+  let p: Vec<&str> = s.splitn(4, '|').collect();
+  if p.len() != 4 {
+    return "rej:descriptor";
+  }
+  let Ok(alg) = p[1].parse::<JwsAlgorithm>() else { return "rej:alg" };
+  let fragment = if p[2] == "<none>" { None } else { Some(p[2]) };
+  let scope = match p[3] {
+    "0" => MethodScope::VerificationMethod,
+    "1" => MethodScope::authentication(),
+    _ => MethodScope::key_agreement(),
+  };
+  let storage: Storage<JwkMemStore, KeyIdMemstore> = Storage::new(JwkMemStore::new(), KeyIdMemstore::new());
+  let mut doc = CoreDocument::from_json(crate::json::SEED_CORE_DOC).expect("seed doc");
+  st("generate_method");
+  match block_on(doc.generate_method(&storage, KeyType::new(p[0]), alg, fragment, scope)) {
+    Err(_) => "rej",
+    Ok(frag) => {
+      st("generate_method>create_jws");
+      for f in [frag.as_str(), &format!("#{frag}"), p[2], "", "#", "did:example:123#k"] {
+        if let Ok(jws) = block_on(doc.create_jws(&storage, f, b"payload", &JwsSignatureOptions::default())) {
+          st("generate_method>create_jws>verify_jws");
+          bb(doc.verify_jws(jws.as_str(), None, &vx::fx::RealVerifier, &Default::default()).is_ok());
+          st("generate_method>create_jws");
+        }
+      }
+      st("generate_method>to_json");
+      bb(doc.to_json().is_ok());
+      st("generate_method>purge_method");
+      if let Ok(id) = doc.id().to_url().join(format!("#{frag}")) {
+        bb(block_on(doc.purge_method(&storage, &id)).is_ok());
+      }
+      "accepted"
+    }
+  }
+}
+
+pub fn entries() -> Vec<Entry> {
+  vec![
+    es("SdJwtVc::parse[table]", e_sd_jwt_vc_parse),
+    es("RevocationBitmapStatus::new(DIDUrl)", e_revocation_bitmap_status_new),
+    es("Timestamp::from_unix", e_timestamp_from_unix),
+    es("JwkMemStore::insert+sign", e_memstore),
+    es("JwkDocumentExt::generate_method+create_jws", e_generate_method),
+  ]
+}
+
+// ------------------------------------------------------------------------------------------------ hostile family
+type HostileFn = fn(&str) -> Out;
+
+fn arg_n(d: &str) -> usize {
+  d.rsplit(':').next().and_then(|x| x.parse().ok()).unwrap_or(0)
+}
+
+/// Streams `n` zero bytes through `enc` without materialising them.
+fn zeros<W: Write>(enc: &mut W, n: usize) {
+  let block = vec![0u8; 1 << 20];
+  let mut left = n;
+  while left > 0 {
+    let k = left.min(block.len());
+    enc.write_all(&block[..k]).unwrap();
+    left -= k;
+  }
+}
+
+fn h_status_list_bomb(d: &str) -> Out {
+  use identity_core::convert::{Base, BaseEncoding};
+  use identity_credential::revocation::status_list_2021::StatusList2021;
+  let mut e = vx::fx::gz_encoder();
+  zeros(&mut e, arg_n(d));
+  let s = BaseEncoding::encode(&e.finish().unwrap()[..], Base::Base64);
+  eprintln!("input: {} bytes of base64", s.len());
+  match StatusList2021::try_from_encoded_str(&s) {
+    Err(_) => "rej",
+    Ok(l) => {
+      bb((l.len(), l.get(0).is_ok(), l.get(l.len().wrapping_sub(1)).is_ok()));
+      "accepted"
+    }
+  }
+}
+fn h_bitmap_bomb(d: &str) -> Out {
+  use identity_core::convert::{Base, BaseEncoding};
+  let mut e = vx::fx::zlib_encoder();
+  zeros(&mut e, arg_n(d));
+  let direct = BaseEncoding::encode(&e.finish().unwrap()[..], Base::Base64Url);
+  let legacy = BaseEncoding::encode(direct.as_bytes(), Base::Base64);
+  eprintln!("input: {} bytes of base64", legacy.len());
+  crate::entry("RevocationBitmap::try_from(Service)[data-url payload]");
+  match &crate::entry("RevocationBitmap::try_from(Service)[data-url payload]").f {
+    crate::F::S(f) => f(&legacy),
+    _ => "rej",
+  }
+}
+fn h_bitmap_full(d: &str) -> Out {
+  // a genuine roaring bitmap with `n` full bitmap containers (2^16 bits each)
+  let n = arg_n(d) as u32;
+  let mut raw = Vec::new();
+  raw.extend(12346u32.to_le_bytes());
+  raw.extend(n.to_le_bytes());
+  for k in 0..n {
+    raw.extend((k as u16).to_le_bytes());
+    raw.extend(0xFFFFu16.to_le_bytes());
+  }
+  for _ in 0..n {
+    raw.extend(0u32.to_le_bytes());
+  }
+  let mut e = vx::fx::zlib_encoder();
+  e.write_all(&raw).unwrap();
+  let block = vec![0xFFu8; 8192];
+  for _ in 0..n {
+    e.write_all(&block).unwrap();
+  }
+  use identity_core::convert::{Base, BaseEncoding};
+  let direct = BaseEncoding::encode(&e.finish().unwrap()[..], Base::Base64Url);
+  let legacy = BaseEncoding::encode(direct.as_bytes(), Base::Base64);
+  eprintln!("input: {} bytes of base64", legacy.len());
+  match &crate::entry("RevocationBitmap::try_from(Service)[data-url payload]").f {
+    crate::F::S(f) => f(&legacy),
+    _ => "rej",
+  }
+}
+fn h_nest(d: &str) -> Out {
+  // `nest:<kind>:<depth>`
+  let depth = arg_n(d);
+  let kind = d.split(':').nth(1).unwrap_or("arr");
+  let (open, close, leaf) = match kind {
+    "arr" => ("[".to_string(), "]".to_string(), "1".to_string()),
+    "obj" => ("{\"a\":".to_string(), "}".to_string(), "1".to_string()),
+    "doc-prop" => ("{\"a\":".to_string(), "}".to_string(), "1".to_string()),
+    _ => ("[".to_string(), "]".to_string(), "1".to_string()),
+  };
+  let mut inner = String::with_capacity(depth * (open.len() + close.len()) + 8);
+  for _ in 0..depth {
+    inner.push_str(&open);
+  }
+  inner.push_str(&leaf);
+  for _ in 0..depth {
+    inner.push_str(&close);
+  }
+  let text = if kind == "doc-prop" { format!(r#"{{"id":"did:example:123","p":{inner}}}"#) } else { inner };
+  let mut acc = false;
+  for name in ["CoreDocument::from_json", "Jwk::from_json", "Credential::from_json", "Presentation<Jwt>::from_json", "Service::from_json", "VerificationMethod::from_json", "Status::from_json", "StatusList2021Credential::from_json", "IotaDocument::from_json", "Decoder::decode_flattened_serialization", "Decoder::decode_general_serialization", "sd_jwt_vc metadata::from_json"] {
+    if let crate::F::S(f) = &crate::entry(name).f {
+      acc |= f(&text).starts_with("acc");
+    }
+  }
+  // nested JSON inside a JWT payload and inside a disclosure
+  let t = vx::fx::compact_ed(crate::tokens::CRED_HEADER, format!(r#"{{"iss":"did:example:123","nbf":1,"vc":{{"@context":"https://www.w3.org/2018/credentials/v1","type":["VerifiableCredential"],"credentialSubject":{{"x":{text}}}}}}}"#).as_bytes(), &crate::tokens::ISSUER_KEY);
+  if let crate::F::S(f) = &crate::entry("JwtCredentialValidator::validate").f {
+    acc |= f(&t).starts_with("acc");
+  }
+  let disc = vx::fx::b64(format!(r#"["salt","n",{text}]"#));
+  for name in ["sd_jwt_payload(0.2)::SdJwt/Disclosure::parse", "sd_jwt_v2::SdJwt/Disclosure/KeyBindingJwt::parse"] {
+    if let crate::F::S(f) = &crate::entry(name).f {
+      acc |= f(&disc).starts_with("acc");
+    }
+  }
+  if acc {
+    "accepted"
+  } else {
+    "rej"
+  }
+}
+fn h_long(d: &str) -> Out {
+  // `long:<what>:<n>`
+  let n = arg_n(d);
+  let what = d.split(':').nth(1).unwrap_or("");
+  let (entries, text): (&[&str], String) = match what {
+    "did" => (&["CoreDID::parse", "DIDUrl::parse", "IotaDID::parse", "DIDJwk::parse", "CoreDID::set_method_id"], format!("did:example:{}", "a".repeat(n))),
+    "did-colons" => (&["CoreDID::parse", "DIDUrl::parse", "IotaDID::parse"], format!("did:example:{}", "a:".repeat(n / 2) + "a")),
+    "did-pct" => (&["CoreDID::parse", "DIDUrl::parse", "CoreDID::set_method_id"], format!("did:example:{}a", "%41".repeat(n / 3))),
+    "did-url-query" => (&["DIDUrl::parse", "DIDUrl::join", "DIDUrl::set_query"], format!("did:example:a?{}", "a=b&".repeat(n / 4))),
+    "timestamp-fraction" => (&["Timestamp::parse", "Timestamp::from_json"], format!("2023-11-14T22:13:20.{}Z", "9".repeat(n))),
+    "url" => (&["Url::parse", "StringOrUrl::parse", "Url::join"], format!("https://example.com/{}", "a/".repeat(n / 2))),
+    "b64" => (&["jwu::decode_b64(_json)", "BaseEncoding::decode", "decode_multibase/MethodData::try_decode", "StatusList2021::try_from_encoded_str", "RevocationBitmap::try_from(Service)[data-url payload]"], "A".repeat(n)),
+    "base58" => (&["BaseEncoding::decode", "decode_multibase/MethodData::try_decode"], format!("z{}", "2".repeat(n))),
+    "network" => (&["NetworkName::try_from", "NetworkName::from_json"], "a".repeat(n)),
+    "integrity" => (&["IntegrityMetadata::parse"], format!("sha256-{}-{}", "A".repeat(n / 4 * 4), "o".repeat(16))),
+    "jws" => (&["Decoder::decode_compact_serialization", "JwtCredentialValidator::validate", "JwtPresentationValidator::validate"], {
+      let payload = format!(r#"{{"iss":"did:example:123","nbf":1,"vc":{{"@context":"https://www.w3.org/2018/credentials/v1","type":["VerifiableCredential"],"credentialSubject":{{"x":"{}"}}}}}}"#, "a".repeat(n));
+      vx::fx::compact_ed(crate::tokens::CRED_HEADER, payload.as_bytes(), &crate::tokens::ISSUER_KEY)
+    }),
+    "jws-dots" => (&["Decoder::decode_compact_serialization", "JwtCredentialValidator::validate"], ".".repeat(n)),
+    "sd-jwt-tildes" => (&["sd_jwt_payload(0.2)::SdJwt/Disclosure::parse", "sd_jwt_v2::SdJwt/Disclosure/KeyBindingJwt::parse", "SdJwtCredentialValidator::validate_credential", "SdJwtCredentialValidator::validate_key_binding_jwt"], format!("{}{}", crate::tokens::SD_PARTS.0, "~".repeat(n))),
+    "sd-jwt-disclosures" => (&["SdJwtCredentialValidator::validate_credential", "SdJwtCredentialValidator::validate_key_binding_jwt", "sd_jwt_payload(0.2)::SdJwt/Disclosure::parse"], format!("{}~{}", crate::tokens::SD_PARTS.0, format!("{}~", crate::tokens::SD_PARTS.1[0]).repeat(n))),
+    _ => (&[], String::new()),
+  };
+  let mut acc = false;
+  for name in entries {
+    match &crate::entry(name).f {
+      crate::F::S(f) => acc |= f(&text).starts_with("acc"),
+      crate::F::B(f) => acc |= f(text.as_bytes()).starts_with("acc"),
+    }
+  }
+  if acc {
+    "accepted"
+  } else {
+    "rej"
+  }
+}
+fn h_many(d: &str) -> Out {
+  // `many:<what>:<n>`: documents with n members
+  let n = arg_n(d);
+  let what = d.split(':').nth(1).unwrap_or("");
+  let (entries, text): (&[&str], String) = match what {
+    "methods" => (&["CoreDocument::from_json"], {
+      let ms: Vec<String> = (0..n).map(|i| format!(r##"{{"id":"did:example:123#k{i}","controller":"did:example:123","type":"T","publicKeyMultibase":"zH3C2AVvLMv6gmMNam3uVAjZpfkcJCwDwnZn6z3wXmqPV"}}"##)).collect();
+      format!(r##"{{"id":"did:example:123","verificationMethod":[{}]}}"##, ms.join(","))
+    }),
+    "same-methods" => (&["CoreDocument::from_json"], {
+      let m = r##"{"id":"did:example:123#k","controller":"did:example:123","type":"T","publicKeyMultibase":"zH3C2AVvLMv6gmMNam3uVAjZpfkcJCwDwnZn6z3wXmqPV"}"##;
+      format!(r##"{{"id":"did:example:123","verificationMethod":[{}]}}"##, vec![m; n].join(","))
+    }),
+    "controllers" => (&["CoreDocument::from_json"], {
+      let cs: Vec<String> = (0..n).map(|i| format!("\"did:example:c{i}\"")).collect();
+      format!(r##"{{"id":"did:example:123","controller":[{}]}}"##, cs.join(","))
+    }),
+    "types" => (&["Credential::from_json"], {
+      let ts: Vec<String> = (0..n).map(|i| format!("\"T{i}\"")).collect();
+      format!(r##"{{"@context":"https://www.w3.org/2018/credentials/v1","type":["VerifiableCredential",{}],"credentialSubject":{{"id":"did:example:s"}},"issuer":"did:example:123","issuanceDate":"2010-01-01T19:23:24Z"}}"##, ts.join(","))
+    }),
+    "keys" => (&["JwkSet::from_json"], format!(r#"{{"keys":[{}]}}"#, vec![crate::json::SEED_JWK_OKP; n].join(","))),
+    "dup-keys" => (&["CoreDocument::from_json", "Jwk::from_json", "Credential::from_json"], format!(r#"{{{}"id":"did:example:123"}}"#, r#""id":"did:example:1","#.repeat(n))),
+    _ => (&[], String::new()),
+  };
+  let mut acc = false;
+  for name in entries {
+    if let crate::F::S(f) = &crate::entry(name).f {
+      acc |= f(&text).starts_with("acc");
+    }
+  }
+  if acc {
+    "accepted"
+  } else {
+    "rej"
+  }
+}
+/// `String::from(IotaDID)` / `DID::into_string` (census: mutual recursion between `From<IotaDID> for String`
+/// and the default `DID::into_string`).
+fn h_iota_did_into_string(d: &str) -> Out {
+  use identity_did::DID;
+  use identity_iota_core::IotaDID;
+  let s = d.split_once(':').map(|x| x.1).unwrap_or("");
+  let Ok(did) = IotaDID::parse(s) else { return "rej" };
+  let a = String::from(did.clone());
+  let b = did.into_string();
+  bb((a.len(), b.len()));
+  "accepted"
+}
+
+const HOSTILE: &[(&str, HostileFn)] = &[
+  ("hostile/StatusList2021::try_from_encoded_str(gzip bomb)", h_status_list_bomb),
+  ("hostile/RevocationBitmap::try_from(Service)(zlib bomb)", h_bitmap_bomb),
+  ("hostile/RevocationBitmap::try_from(Service)(full bitmap)", h_bitmap_full),
+  ("hostile/from_json(deep nesting)", h_nest),
+  ("hostile/parsers(long input)", h_long),
+  ("hostile/from_json(many members)", h_many),
+  ("hostile/IotaDID::into_string", h_iota_did_into_string),
+];
+
+const AS_LIMIT: u64 = 4 << 30; // 4 GiB address space
+const CPU_LIMIT_S: u64 = 60;
+const WALL_LIMIT_S: u64 = 120;
+/// inputs below this size that exhaust the CPU limit are judged as non-termination
+const SMALL_INPUT: usize = 4096;
+
+/// Child mode: `c05 --c05-child <entry> <descriptor>`. Exit codes: 0 returned (label on stdout), 3 unwound
+/// (panic key on stdout); anything else (signal, 101, 134 ...) is an abort and is judged by the parent.
+pub fn child_main(args: &[String]) -> ! {
+  if args.len() != 2 {
+    eprintln!("child: bad arguments");
+    std::process::exit(2);
+  }
+  unsafe {
+    let lim = libc::rlimit { rlim_cur: AS_LIMIT, rlim_max: AS_LIMIT };
+    libc::setrlimit(libc::RLIMIT_AS, &lim);
+    let lim = libc::rlimit { rlim_cur: CPU_LIMIT_S, rlim_max: CPU_LIMIT_S + 5 };
+    libc::setrlimit(libc::RLIMIT_CPU, &lim);
+    let lim = libc::rlimit { rlim_cur: 0, rlim_max: 0 };
+    libc::setrlimit(libc::RLIMIT_CORE, &lim);
+  }
+  vx::guard::install_hook();
+  vx::fx::install_clock();
+  let Some((_, f)) = HOSTILE.iter().find(|(n, _)| *n == args[0]) else {
+    eprintln!("child: unknown hostile entry {}", args[0]);
+    std::process::exit(2);
+  };
+  let d = args[1].clone();
+  crate::st("");
+  match vx::guard(|| f(&d)) {
+    Ok(label) => {
+      println!("OK {label}");
+      std::process::exit(0)
+    }
+    Err(p) => {
+      println!("PANIC {}\t{} @ {}", crate::pkey(&p), p.msg, p.loc);
+      std::process::exit(3)
+    }
+  }
+}
+
+enum ChildResult {
+  Returned(String),
+  Panicked(String, String),
+  Aborted(String, String),
+  CpuTimeout,
+  WallTimeout,
+  Machinery(String),
+}
+
+fn run_child(entry: &str, descriptor: &str) -> ChildResult {
+  let exe = match std::env::current_exe() {
+    Ok(e) => e,
+    Err(e) => return ChildResult::Machinery(format!("current_exe: {e}")),
+  };
+  let mut child = match Command::new(exe).arg(CHILD_ARG).arg(entry).arg(descriptor).stdin(Stdio::null()).stdout(Stdio::piped()).stderr(Stdio::piped()).spawn() {
+    Ok(c) => c,
+    Err(e) => return ChildResult::Machinery(format!("spawn: {e}")),
+  };
+  let t0 = Instant::now();
+  let status = loop {
+    match child.try_wait() {
+      Ok(Some(s)) => break s,
+      Ok(None) => {
+        if t0.elapsed() > Duration::from_secs(WALL_LIMIT_S) {
+          let _ = child.kill();
+          let _ = child.wait();
+          return ChildResult::WallTimeout;
+        }
+        std::thread::sleep(Duration::from_millis(20));
+      }
+      Err(e) => return ChildResult::Machinery(format!("wait: {e}")),
+    }
+  };
+  let mut out = String::new();
+  let mut err = String::new();
+  use std::io::Read;
+  if let Some(mut o) = child.stdout.take() {
+    let _ = o.read_to_string(&mut out);
+  }
+  if let Some(mut e) = child.stderr.take() {
+    let _ = e.read_to_string(&mut err);
+  }
+  let err_tail: String = err.lines().rev().take(3).collect::<Vec<_>>().join(" | ");
+  use std::os::unix::process::ExitStatusExt;
+  match (status.code(), status.signal()) {
+    (Some(0), _) => ChildResult::Returned(out.trim().trim_start_matches("OK ").to_string()),
+    (Some(3), _) => {
+      let line = out.lines().find(|l| l.starts_with("PANIC ")).unwrap_or("PANIC ?\t?");
+      let (k, m) = line.trim_start_matches("PANIC ").split_once('\t').unwrap_or(("?", "?"));
+      ChildResult::Panicked(k.to_string(), m.to_string())
+    }
+    (Some(2), _) => ChildResult::Machinery(format!("child machinery error: {err_tail}")),
+    (_, Some(sig)) if sig == libc::SIGXCPU || sig == libc::SIGKILL => ChildResult::CpuTimeout,
+    (_, Some(sig)) => {
+      let class = if err.contains("memory allocation of") {
+        "allocation-failure"
+      } else if err.contains("stack overflow") || sig == libc::SIGSEGV {
+        "stack-overflow-or-segv"
+      } else {
+        "abort"
+      };
+      ChildResult::Aborted(format!("{class}(signal {sig})"), err_tail)
+    }
+    (Some(c), _) => ChildResult::Aborted(format!("exit-code-{c}"), err_tail),
+    (None, None) => ChildResult::Machinery("child ended without status".into()),
+  }
+}
+
+pub fn eval_hostile(ctx: &Ctx, case: &Case) {
+  ctx.eval1();
+  let d = case.s.clone().unwrap_or_default();
+  let short = case.entry.trim_start_matches(HOSTILE_PREFIX);
+  // the class of the descriptor (without its size) is part of the outcome label, not of the key
+  let class: String = d.rsplit_once(':').map(|x| x.0.to_string()).unwrap_or_default();
+  let label = match run_child(&case.entry, &d) {
+    ChildResult::Returned(l) => format!("returned:{l}"),
+    ChildResult::Panicked(k, m) => {
+      ctx.violation(&format!("{short}|{k}"), &m, case);
+      "PANIC".to_string()
+    }
+    ChildResult::Aborted(class_, tail) => {
+      ctx.violation(&format!("{short}|{class}|{class_}"), &format!("child process aborted: {tail}"), case);
+      "ABORT".to_string()
+    }
+    ChildResult::CpuTimeout => {
+      if d.len() <= SMALL_INPUT && !d.split(':').any(|p| p.parse::<usize>().map(|n| n > SMALL_INPUT).unwrap_or(false)) {
+        ctx.violation(&format!("{short}|does-not-terminate"), &format!("no result within {CPU_LIMIT_S} s of CPU time on an input of {} bytes", d.len()), case);
+        "NO-TERMINATION".to_string()
+      } else {
+        "cpu-limit-on-large-input(not judged)".to_string()
+      }
+    }
+    ChildResult::WallTimeout => "wall-limit(not judged)".to_string(),
+    ChildResult::Machinery(m) => {
+      ctx.require(false, &format!("hostile child of {}: {m}", case.entry));
+      "machinery".to_string()
+    }
+  };
+  ctx.outcome(&format!("{} [{class}] => {label}", case.entry));
+  ctx.distinct(&(case.entry.as_str(), d.as_str()));
+}
+
+// ------------------------------------------------------------------------------------------------ source census
+/// Count `unwrap()/expect(/unreachable!/panic!(` outside `#[cfg(test)]` (textual: a file is cut at its first
+/// `#[cfg(test)]`) in the anchored crates, so that the evidence records how many sites the sweep was built for.
+fn source_census() -> vx::Value {
+  fn walk(dir: &std::path::Path, out: &mut Vec<std::path::PathBuf>) {
+    let Ok(rd) = std::fs::read_dir(dir) else { return };
+    let mut es: Vec<_> = rd.flatten().map(|e| e.path()).collect();
+    es.sort();
+    for p in es {
+      if p.is_dir() {
+        if p.file_name().map(|n| n == "tests" || n == "target").unwrap_or(false) {
+          continue;
+        }
+        walk(&p, out);
+      } else if p.extension().map(|e| e == "rs").unwrap_or(false) {
+        out.push(p);
+      }
+    }
+  }
+  let mut per_crate = serde_json::Map::new();
+  let mut total = 0u64;
+  for krate in ["identity_core", "identity_did", "identity_document", "identity_verification", "identity_jose", "identity_credential", "identity_iota_core", "identity_storage", "identity_eddsa_verifier", "identity_ecdsa_verifier"] {
+    let mut files = Vec::new();
+    walk(std::path::Path::new(&format!("/repo/{krate}/src")), &mut files);
+    let mut n = 0u64;
+    for f in files {
+      if f.to_string_lossy().contains("test_utils") {
+        continue;
+      }
+      let Ok(t) = std::fs::read_to_string(&f) else { continue };
+      let t = t.split("#[cfg(test)]").next().unwrap_or("");
+      for line in t.lines() {
+        let l = line.trim_start();
+        if l.starts_with("//") {
+          continue;
+        }
+        for pat in [".unwrap()", ".expect(", "unreachable!(", "panic!("] {
+          n += l.matches(pat).count() as u64;
+        }
+      }
+    }
+    total += n;
+    per_crate.insert(krate.to_string(), json!(n));
+  }
+  json!({"total_sites_outside_cfg_test": total, "per_crate": per_crate})
+}
+
+pub fn generate(ctx: &Ctx) {
+  // ---------------------------------------------------------------- SD-JWT VC: iss x vct x kb table (resolver-driven accessors)
+  let isses = [
+    "https://example.com/issuer",
+    "https://example.com",
+    "https://example.com:8443/a/b?c#d",
+    "http://example.com/issuer",
+    "did:example:123",
+    "did:iota:0x0000000000000000000000000000000000000000000000000000000000000000",
+    "data:,x",
+    "file:///etc/passwd",
+    "blob:https://example.com/uuid",
+    "urn:uuid:1234",
+    "https://[::1]/x",
+    "https://xn--nxasmq6b.example/%zz",
+    "mailto:a@b.c",
+    "not a url",
+    "",
+  ];
+  let vcts = ["https://bmi.bund.example/credential/pid/1.0", "https://example.com", "http://example.com/vct", "did:example:123", "a plain string", "", "https://example.com/%zz?q#f", "data:,x"];
+  let mut cases: Vec<(&'static str, String)> = Vec::new();
+  for iss in isses {
+    for vct in vcts {
+      for kb in [true, false] {
+        cases.push(("SdJwtVc::parse[table]", crate::tokens::sd_jwt_vc_token(iss, vct, "", kb)));
+      }
+    }
+  }
+  for extra in [r#","status":{"status_list":{"idx":1,"uri":"https://example.com/s"}}"#, r#","status":{"x":1}"#, r#","status":5"#, r#","cnf":{"kid":"k"}"#, r#","cnf":{"jwu":{"kid":"k","jwu":"https://a.b"}}"#, r#","cnf":5"#] {
+    // (duplicate `cnf` members are themselves a mutation of interest)
+    cases.push(("SdJwtVc::parse[table]", crate::tokens::sd_jwt_vc_token("https://example.com/issuer", "https://example.com/vct", extra, true)));
+  }
+  crate::strings::run_list(ctx, "census: SD-JWT VC iss x vct x kb table with 5 resolver behaviours", &cases, json!({"iss": isses.len(), "vct": vcts.len(), "resolver_modes": ["NotFound", "garbage", "fixed document", "generic error", "wrong JSON shape"]}));
+
+  // ---------------------------------------------------------------- RevocationBitmapStatus::new over DID URL strings
+  let sweeps: Vec<Sweep> = vec![sw("RevocationBitmapStatus::new(DIDUrl)", A_DID, &[("did:m:a", ""), ("did:m:a?", ""), ("did:m:a?index=", ""), ("did:m:a#", "")], (3, 4))];
+  crate::strings::run_sweeps(ctx, "census: RevocationBitmapStatus::new prefix trees", &sweeps);
+
+  // ---------------------------------------------------------------- Timestamp::from_unix boundaries
+  let mut cases: Vec<(&'static str, String)> = Vec::new();
+  for base in [-62167219200i64, 253402300799, 0, i64::MIN + 4, i64::MAX - 4, -62135596800, u32::MAX as i64, i32::MIN as i64] {
+    for d in -4..=4i64 {
+      cases.push(("Timestamp::from_unix", (base.saturating_add(d)).to_string()));
+    }
+  }
+  crate::strings::run_list(ctx, "census: Timestamp::from_unix boundaries", &cases, json!({"bases": 8, "deltas": "-4..=4"}));
+
+  // ---------------------------------------------------------------- key storage with hostile JWKs
+  let priv_ok = {
+    let mut k = crate::tokens::ISSUER_KEY.private_with_alg("EdDSA");
+    k.set_kid("k");
+    k.to_json().unwrap()
+  };
+  let mut cases: Vec<(&'static str, String)> = vec![("JwkMemStore::insert+sign", priv_ok.clone())];
+  let seed = crate::json::J::parse(&priv_ok);
+  for p in seed.paths() {
+    for m in 0..crate::json::N_MUT {
+      let mut j = seed.clone();
+      if crate::json::mutate(&mut j, &p, m) {
+        cases.push(("JwkMemStore::insert+sign", j.text()));
+      }
+    }
+  }
+  for kty in ["OKP", "EC", "RSA", "oct"] {
+    for crv in ["Ed25519", "X25519", "Ed448", "P-256", "BLS12381G2", ""] {
+      for alg in ["EdDSA", "ES256", "HS256", "BBS", ""] {
+        for dlen in [0usize, 1, 31, 32, 33, 64] {
+          let d = vx::fx::b64(vec![7u8; dlen]);
+          let x = vx::fx::b64(vec![9u8; 32]);
+          let body = match kty {
+            "OKP" => format!(r#""crv":"{crv}","x":"{x}","d":"{d}""#),
+            "EC" => format!(r#""crv":"{crv}","x":"{x}","y":"{x}","d":"{d}""#),
+            "RSA" => format!(r#""n":"{x}","e":"AQAB","d":"{d}""#),
+            _ => format!(r#""k":"{d}""#),
+          };
+          cases.push(("JwkMemStore::insert+sign", format!(r#"{{"kty":"{kty}","alg":"{alg}",{body}}}"#)));
+          // declared kty disagrees with the parameter family
+          cases.push(("JwkMemStore::insert+sign", format!(r#"{{"kty":"OKP","alg":"{alg}",{body}}}"#)));
+        }
+      }
+    }
+  }
+  crate::strings::run_list(ctx, "census: JwkMemStore::insert+sign with hostile JWKs", &cases, json!({"space": "every node of a private Ed25519 JWK x mutation menu; kty(4) x crv(6) x alg(5) x d-length(6), each also with declared kty OKP"}));
+  let mut cases: Vec<(&'static str, String)> = Vec::new();
+  for kt in ["Ed25519", "BLS12381G2", "ed25519", "", "X25519", "é"] {
+    for alg in ["EdDSA", "ES256", "ES256K", "HS256", "none"] {
+      for frag in ["<none>", "k9", "#k9", "k", "#k", "", "#", "a b", "a#b", "%41", "%4", "%", "é", "did:example:123#z", "?x", "/p", &"f".repeat(300)] {
+        for scope in ["0", "1"] {
+          cases.push(("JwkDocumentExt::generate_method+create_jws", format!("{kt}|{alg}|{frag}|{scope}")));
+        }
+      }
+    }
+  }
+  crate::strings::run_list(ctx, "census: generate_method/create_jws argument table", &cases, json!({"product": "key type(6) x alg(5) x fragment(17) x scope(2)"}));
+
+  ctx.part("census: source sites", source_census());
+
+  // ---------------------------------------------------------------- hostile sizes (child process, last)
+  let q = ctx.quick();
+  let mut hostile: Vec<(&'static str, String)> = Vec::new();
+  let sizes = |q_sizes: &[usize], t_sizes: &[usize]| -> Vec<usize> { if q { q_sizes.to_vec() } else { t_sizes.to_vec() } };
+  for n in sizes(&[1 << 20, 64 << 20], &[1 << 20, 64 << 20, 1 << 30, 5 << 30]) {
+    hostile.push((HOSTILE[0].0, format!("zeros-gzip:{n}")));
+    hostile.push((HOSTILE[1].0, format!("zeros-zlib:{n}")));
+  }
+  for n in sizes(&[16, 1024], &[16, 1024, 65536]) {
+    hostile.push((HOSTILE[2].0, format!("full-containers:{n}")));
+  }
+  for kind in ["arr", "obj", "doc-prop"] {
+    for n in sizes(&[100, 200, 100_000], &[100, 127, 128, 129, 200, 10_000, 1_000_000]) {
+      hostile.push((HOSTILE[3].0, format!("nest:{kind}:{n}")));
+    }
+  }
+  for what in ["did", "did-colons", "did-pct", "did-url-query", "timestamp-fraction", "url", "b64", "base58", "network", "integrity", "jws", "jws-dots", "sd-jwt-tildes", "sd-jwt-disclosures"] {
+    let cap = if what == "base58" || what == "sd-jwt-disclosures" { 100_000 } else { usize::MAX };
+    for n in sizes(&[100_000, 4_000_000], &[100_000, 4_000_000, 64_000_000]) {
+      hostile.push((HOSTILE[4].0, format!("long:{what}:{}", n.min(cap))));
+    }
+  }
+  for what in ["methods", "same-methods", "controllers", "types", "keys", "dup-keys"] {
+    for n in sizes(&[1000], &[1000, 20_000]) {
+      hostile.push((HOSTILE[5].0, format!("many:{what}:{n}")));
+    }
+  }
+  hostile.push((HOSTILE[6].0, format!("did:did:iota:smr:{}", crate::strings::VALID_TAG)));
+  hostile.push((HOSTILE[6].0, format!("did:did:iota:{}", crate::strings::VALID_TAG)));
+  hostile.sort();
+  hostile.dedup();
+  let cases: Vec<Case> = hostile.iter().filter(|(e, _)| crate::only(e)).map(|(e, d)| Case { entry: e.to_string(), s: Some(d.clone()), b: None }).collect();
+  // children are single-threaded and memory-hungry: at most 4 at a time
+  let pool = vx::rayon::ThreadPoolBuilder::new().num_threads(4).build().expect("pool");
+  pool.install(|| cases.par_iter().for_each(|c| eval_hostile(ctx, c)));
+  ctx.add_states(cases.len() as u64);
+  ctx.add_transitions(cases.len() as u64);
+  ctx.add_traces(cases.len() as u64);
+  if let Some(c) = cases.first() {
+    ctx.sample("hostile", c);
+  }
+  ctx.part("census: hostile sizes (child process)", json!({"cases": cases.len(), "rlimit_as_bytes": AS_LIMIT, "rlimit_cpu_s": CPU_LIMIT_S, "wall_limit_s": WALL_LIMIT_S, "generators": HOSTILE.iter().map(|h| h.0).collect::<Vec<_>>()}));
+  ctx.bound("hostile_rlimit_as", AS_LIMIT);
+  ctx.assume("hostile family: the child is this same binary; RLIMIT_AS = 4 GiB, RLIMIT_CPU = 60 s; an abort (allocation failure, stack overflow, SIGSEGV) is a violation; exhausting the CPU limit is a violation only when the input is smaller than 4 KiB (non-termination), otherwise it is recorded and not judged");
+  let _ = Local::default();
+  let _ = In::S("");
+}
